@@ -12,6 +12,9 @@ def install_numpy_shim(env, *modules):
     shim = NumpyShim()
     for m in modules:
         m.np = shim
+        if hasattr(m, "math") and not hasattr(m.math, "_real"):
+            from pvc.models import MathShim
+            m.math = MathShim(m.math)      # math.isclose on proxies = its definition over the exact reals
         if hasattr(m, "__dict__") and "float" not in m.__dict__:
             pass
 
